@@ -504,3 +504,118 @@ func rawWidthInvariant(p *core.Program, r *core.Report, rule, relPkg string) {
 		}
 	}
 }
+
+// noSilentTruncation: the decompressor reads its input to the end. In the given packages nothing
+// bounds a reader silently (io.LimitReader, io.LimitedReader, io.CopyN): such a bound does not report
+// that it cut the stream, so a payload that inflates beyond it comes back shortened and the records
+// behind the cut are lost or garbled. One obligation per function that reads a stream to its end.
+func noSilentTruncation(p *core.Program, r *core.Report, rule string, relPkgs []string) {
+	in := map[string]bool{}
+	for _, k := range relPkgs {
+		in[k] = true
+	}
+	for _, fi := range p.Funcs {
+		if !in[core.RelPkg(fi.Pkg.PkgPath)] || fi.Decl.Body == nil {
+			continue
+		}
+		info := fi.Pkg.TypesInfo
+		readsAll := false
+		var probs []string
+		ast.Inspect(fi.Decl.Body, func(n ast.Node) bool {
+			switch v := n.(type) {
+			case *ast.CallExpr:
+				switch {
+				case isCallTo(info, v, "io/ioutil", "ReadAll") || isCallTo(info, v, "io", "ReadAll") || isCallTo(info, v, "io", "Copy"):
+					readsAll = true
+				case isCallTo(info, v, "io", "LimitReader") || isCallTo(info, v, "io", "CopyN"):
+					probs = append(probs, fmt.Sprintf("%s: %s cuts the stream off without reporting it", p.Pos(v.Pos()), stripSpaces(types.ExprString(v.Fun))))
+				}
+			case *ast.CompositeLit:
+				if nt := namedOf(info.TypeOf(v)); nt != nil && nt.Obj().Name() == "LimitedReader" && nt.Obj().Pkg() != nil && nt.Obj().Pkg().Path() == "io" {
+					probs = append(probs, fmt.Sprintf("%s: io.LimitedReader cuts the stream off without reporting it", p.Pos(v.Pos())))
+				}
+			}
+			return true
+		})
+		if readsAll || len(probs) > 0 {
+			fileProbs(r, rule, core.FuncName(fi.Obj)+" reads to the end", p.Pos(fi.Decl.Pos()), probs, "the stream is read to its end")
+		}
+	}
+}
+
+// encodesUnaltered: a function that encodes a pack it was handed (WritePack(out, x), x.Write(out),
+// ToBytesPack(x)) does not change that pack around the encoding: no setter call and no field
+// assignment on x in the same function. A pack "temporarily" altered for its own encoding (project
+// code blanked to save bytes, restored afterwards) goes on the wire as a different pack.
+func encodesUnaltered(p *core.Program, x interface{ IsStream(types.Type) bool }, r *core.Report, rule string, relPkgs []string) {
+	in := map[string]bool{}
+	for _, k := range relPkgs {
+		in[k] = true
+	}
+	for _, fi := range p.Funcs {
+		if !in[core.RelPkg(fi.Pkg.PkgPath)] || fi.Decl.Body == nil {
+			continue
+		}
+		info := fi.Pkg.TypesInfo
+		encoded := map[types.Object]bool{}
+		ast.Inspect(fi.Decl.Body, func(n ast.Node) bool {
+			call, ok := n.(*ast.CallExpr)
+			if !ok {
+				return true
+			}
+			name := ""
+			var recv ast.Expr
+			switch f := ast.Unparen(call.Fun).(type) {
+			case *ast.Ident:
+				name = f.Name
+			case *ast.SelectorExpr:
+				name, recv = f.Sel.Name, f.X
+			}
+			switch {
+			case name == "WritePack" || name == "ToBytesPack" || name == "WriteStep":
+				for _, a := range call.Args {
+					if id, ok := ast.Unparen(a).(*ast.Ident); ok {
+						if tv, ok := info.Types[a]; ok && !x.IsStream(tv.Type) {
+							if o := info.ObjectOf(id); o != nil {
+								encoded[o] = true
+							}
+						}
+					}
+				}
+			case name == "Write" && recv != nil && len(call.Args) == 1:
+				if tv, ok := info.Types[call.Args[0]]; ok && x.IsStream(tv.Type) {
+					if id, ok := ast.Unparen(recv).(*ast.Ident); ok {
+						if o := info.ObjectOf(id); o != nil && id.Name != recvName(fi) {
+							encoded[o] = true
+						}
+					}
+				}
+			}
+			return true
+		})
+		if len(encoded) == 0 {
+			continue
+		}
+		var probs []string
+		ast.Inspect(fi.Decl.Body, func(n ast.Node) bool {
+			switch v := n.(type) {
+			case *ast.CallExpr:
+				if sel, ok := v.Fun.(*ast.SelectorExpr); ok && strings.HasPrefix(sel.Sel.Name, "Set") && len(v.Args) >= 1 {
+					if id, ok := ast.Unparen(sel.X).(*ast.Ident); ok && encoded[info.ObjectOf(id)] {
+						probs = append(probs, fmt.Sprintf("%s: %s.%s(...) changes the pack this function encodes", p.Pos(v.Pos()), id.Name, sel.Sel.Name))
+					}
+				}
+			case *ast.AssignStmt:
+				for _, l := range v.Lhs {
+					if sel, ok := ast.Unparen(l).(*ast.SelectorExpr); ok {
+						if id, ok := ast.Unparen(sel.X).(*ast.Ident); ok && encoded[info.ObjectOf(id)] {
+							probs = append(probs, fmt.Sprintf("%s: %s.%s is assigned in the function that encodes the pack", p.Pos(v.Pos()), id.Name, sel.Sel.Name))
+						}
+					}
+				}
+			}
+			return true
+		})
+		fileProbs(r, rule, core.FuncName(fi.Obj)+" encodes its packs unaltered", p.Pos(fi.Decl.Pos()), uniq(probs), "the packs handed in are encoded as they are")
+	}
+}
